@@ -39,7 +39,12 @@ class Cells(NumberedObjectCollection):
                     ):
                         card.push_to_cells()
                         card._clear_data()
-            except MalformedInputError as e:
+            except (
+                BrokenObjectLinkError,
+                MalformedInputError,
+                ParticleTypeNotInProblem,
+                ParticleTypeNotInCell,
+            ) as e:
                 if check_input:
                     warnings.warn(f"{type(e).__name__}: {e.message}", stacklevel=3)
                     continue
